@@ -186,7 +186,11 @@ def length_catalogue(rng):
     # sections
     out.append(("section:segment-count", _slab(sections=[{"coordinate": 1, "segments": [dict(SEG), dict(SEG, length=100e3)]}]),
                 _slab(sections=[{"coordinate": rng.choice([0, 1, 2]), "segments": resize(rng, [dict(SEG), dict(SEG)], dict(SEG)) or [dict(SEG)]}])))
-    out.append(("section:coordinate-out-of-range", _slab(sections=[{"coordinate": 2, "segments": [dict(SEG), dict(SEG)]}]), _slab(sections=[{"coordinate": rng.choice([3, 7, 1000000]), "segments": [dict(SEG), dict(SEG)]}])))
+    # the first index past the end (= number of coordinates), one more, and a huge one; slab and fault are separate copies of the guard
+    for kind in ("subducting plate", "fault"):
+        for bad_c in (3, 4, rng.choice([7, 1000000, 4294967295])):
+            out.append(("section:coordinate-out-of-range@%s:%d" % (kind, min(bad_c, 5)), _slab(kind, sections=[{"coordinate": 2, "segments": [dict(SEG), dict(SEG)]}]),
+                        _slab(kind, sections=[{"coordinate": bad_c, "segments": [dict(SEG), dict(SEG)]}])))
     out.append(("line:no-segments", _slab(rng.choice(["subducting plate", "fault"])), _slab(rng.choice(["subducting plate", "fault"]), segments=[])))
     out.append(("line:single-coordinate", _slab(rng.choice(["subducting plate", "fault"])), _slab(rng.choice(["subducting plate", "fault"]), coordinates=[[0, 0]])))
     # ridge tables
